@@ -257,6 +257,14 @@ def run_shard(ctx, spec):
             ctx.case(("vd", t), cls="b64:decode-vs-reference")
             _record(ctx, "vd", f, {"kind": "b64valid", "text": t.decode()})
         drive(ctx, "random", big, body, 3000 if ctx.tier == "quick" else 40000)
+        # long octet strings (payloads, ciphertexts): lengths around the buffer sizes an implementation may work in
+        import hashlib as _hl
+        for n in sorted({b + d for b in (4096, 8192, 16384, 65536, 3 * 8192, 100000) for d in (-2, -1, 0, 1, 2, 3)} | {20000, 250000}):
+            data = (_hl.sha512(b"%d" % n).digest() * (n // 64 + 1))[:n]
+            f = case_b64_roundtrip(data)
+            ctx.case(("rt-long", n), cls=["b64:roundtrip", "b64:long"], sample={"fn": "b64-roundtrip", "len": n})
+            for k, w in f.items():
+                ctx.finding(k, w[:300], {"kind": "b64rt-long", "n": n})
     elif part == "invalid":
         valid = st.text(alphabet=rb.ALPHABET, min_size=0, max_size=12)
 
@@ -396,6 +404,10 @@ def replay(rec) -> dict:
         if t.rstrip(b"=") != t and _re.fullmatch(rb"[A-Za-z0-9_-]*", t.rstrip(b"=")):
             return {}
         return case_b64_invalid(t)
+    if k == "b64rt-long":
+        import hashlib as _hl
+        n = rec["n"]
+        return {a: b[:300] for a, b in case_b64_roundtrip((_hl.sha512(b"%d" % n).digest() * (n // 64 + 1))[:n]).items()}
     if k == "b64rt":
         return case_b64_roundtrip(bytes.fromhex(rec["data_hex"]))
     if k == "b64invalid":
